@@ -143,8 +143,9 @@ func runNConc(m map[string]string) string {
 	}
 	nRegister(ws, true)
 	defer nRegister(ws, false)
-	hang := false
-	blocked := 0 // number of W observations (coverage)
+	hang := false     // a deadlock: every unfinished caller waits for a lock and stays so
+	timedOut := false // the goroutines did not come to rest in time (a loaded machine): inconclusive, not a failure
+	blocked := 0      // number of W observations (coverage)
 	take := func(w *nWorker, ev string) {
 		w.mid = false
 		if ev == "K" {
@@ -182,9 +183,9 @@ func runNConc(m map[string]string) string {
 				case <-t.C:
 				}
 			}
-			st := settleGoroutines(gids, "/core/schedule.", 4*time.Second)
+			st := settleGoroutines(gids, "/core/schedule.", 12*time.Second)
 			if st == nil {
-				hang = true
+				timedOut = true
 				return
 			}
 			took := false
@@ -219,15 +220,34 @@ func runNConc(m map[string]string) string {
 		}
 		return true
 	}
+	// confirmDeadlock: nobody could be released. A caller that was seen waiting for a lock may have got it meanwhile and
+	// not have been scheduled yet (a loaded machine): it is a deadlock only if for three seconds no caller comes forward.
+	confirmDeadlock := func() bool {
+		deadline := time.Now().Add(3 * time.Second)
+		for time.Now().Before(deadline) {
+			for _, w := range ws {
+				if w.mid {
+					select {
+					case ev := <-w.parked:
+						take(w, ev)
+						return false
+					default:
+					}
+				}
+			}
+			time.Sleep(2 * time.Millisecond)
+		}
+		return true
+	}
 	if m["sched"] != "" {
 		for _, t := range strings.Split(m["sched"], ",") {
 			i, _ := strconv.Atoi(t)
-			if i >= 0 && i < len(ws) && !hang {
+			if i >= 0 && i < len(ws) && !hang && !timedOut {
 				step(i)
 			}
 		}
 	}
-	for !hang {
+	for !hang && !timedOut {
 		progress, any := false, false
 		for i, w := range ws {
 			if w.left > 0 {
@@ -240,11 +260,11 @@ func runNConc(m map[string]string) string {
 		if !any {
 			break
 		}
-		if !progress {
+		if !progress && !timedOut && confirmDeadlock() {
 			hang = true // everybody waits for a lock nobody will release
 		}
 	}
-	if hang {
+	if hang || timedOut {
 		for _, w := range ws {
 			if w.left > 0 {
 				go func(w *nWorker) {
@@ -258,6 +278,9 @@ func runNConc(m map[string]string) string {
 					}
 				}(w)
 			}
+		}
+		if timedOut && !hang {
+			return "TIMEOUT"
 		}
 		return "HANG"
 	}
